@@ -109,6 +109,14 @@ CLAIMED = {
             "Routes built by the harness (file written to a temp dir for load-file); REPL route compares the printed value "
             "re-read when it is data.",
             "§8 C19"),
+    "C17": ("GenC17.tla is a position model: it renders program texts from blocks, wrappers and faults and computes by line "
+            "arithmetic the rows of the top-level form containing the fault and the fault's own row (asserting on the model "
+            "that every rendering tokenizes); TLC enumerates them; the real error position is compared",
+            "Exhaustive over 0..1 (quick) / 0..3 (thorough: 259 block prefixes) blocks x 17 wrappers x 4 faults x gap blocks "
+            "x following form (2.6k / 97k texts), each evaluated form-by-form and as one do.",
+            "Errors without a position are not judged (the property is conditional); load-file's own row offset is outside "
+            "the property.",
+            "§8 C17"),
 }
 
 NOT_YET = "check not built yet in this round (planned in DESIGN.md §8; the specification module exists or is in progress)"
